@@ -69,7 +69,25 @@ func (m *c02Model) cell() (tabular.Cell, int) {
 			}
 		}
 	}
-	return tabular.NewCell(id), id
+	return tabular.NewCell(c02ItemOf(id)), id
+}
+
+// c02ItemOf is the item standing for id: mostly the number itself; every few ids a value of a type that ALSO has
+// methods of interfaces which are none of a cell's business (the library's own dormant Fielder / AnonFielder, its
+// PropertyOwner / ErrorSource, the method names of Cell and Row, encoding interfaces).  One item is one cell.
+func c02ItemOf(id int) interface{} {
+	tag := fmt.Sprintf("item %d", id)
+	switch id % 11 {
+	case 3:
+		return gen.FielderItem{ID: tag}
+	case 5:
+		return gen.OwnerItem{ID: tag}
+	case 7:
+		return gen.CellishItem{ID: tag}
+	case 9:
+		return gen.BothMarshal{ID: tag}
+	}
+	return id
 }
 
 func (m *c02Model) ids(k int) ([]int, []interface{}) {
@@ -77,7 +95,7 @@ func (m *c02Model) ids(k int) ([]int, []interface{}) {
 	b := make([]interface{}, k)
 	for i := range a {
 		a[i] = m.id()
-		b[i] = a[i]
+		b[i] = c02ItemOf(a[i])
 	}
 	return a, b
 }
@@ -354,7 +372,7 @@ func (m *c02Model) check(c *Ctx) (string, string) {
 			return "Headers", fmt.Sprintf("Headers() has %d cells, model %d", len(h), len(m.header))
 		}
 		for i := range h {
-			if h[i].Item() != interface{}(m.header[i]) {
+			if h[i].Item() != c02ItemOf(m.header[i]) {
 				return "Headers", fmt.Sprintf("Headers()[%d].Item()=%v, model id %d", i, h[i].Item(), m.header[i])
 			}
 		}
@@ -425,7 +443,7 @@ func (m *c02Model) check(c *Ctx) (string, string) {
 				if err != nil || cell == nil {
 					return "CellAt-missing", fmt.Sprintf("CellAt(%+v) failed (%v) but the model has cell id %d there", loc, err, mr.cells[col-1])
 				}
-				if cell.Item() != interface{}(mr.cells[col-1]) {
+				if cell.Item() != c02ItemOf(mr.cells[col-1]) {
 					return "CellAt-wrong-cell", fmt.Sprintf("CellAt(%+v) returned the cell holding %v, model expects id %d", loc, cell.Item(), mr.cells[col-1])
 				}
 				if got := cell.Location(); got != loc {
@@ -471,7 +489,7 @@ func (m *c02Model) check(c *Ctx) (string, string) {
 			return "held-row-cells", fmt.Sprintf("unattached row has %d cells, model %d", len(cells), len(hr.cells))
 		}
 		for i := range cells {
-			if cells[i].Item() != interface{}(hr.cells[i]) {
+			if cells[i].Item() != c02ItemOf(hr.cells[i]) {
 				return "held-row-cells", fmt.Sprintf("unattached row cell %d holds %v, model id %d", i, cells[i].Item(), hr.cells[i])
 			}
 		}
